@@ -97,7 +97,7 @@ func TestC20(t *testing.T) {
 	if err != nil {
 		t.Fatal(err)
 	}
-	rec.Suite("search", rec.N(40000, 2000000), func(c *ev.Case) {
+	rec.Suite("search", rec.N(40000, 20000000), func(c *ev.Case) {
 		r := c.R
 		var ctx *lib.Ctx
 		var m *gen.Msg
